@@ -833,38 +833,165 @@ theorem interface_span (fuel : Nat) (c' : List String) (cs ts : List Token) (n :
 
 /-! ### namespaces and whole files -/
 
-/-- kind-specific nesting of a declaration inside its own tokens `pre` (doc comments excluded) -/
+/-- an enum item was read from exactly `pre` (doc comments, name, `;`) -/
+def ItemSpan (i : Item) (pre : List Token) : Prop := i.pos = tokSpan pre ∧ pre ≠ []
+
+theorem item_span : ∀ ts i rest, item ts = some (i, rest) → ∃ pre, ts = pre ++ rest ∧ ItemSpan i pre := by
+  intro ts0 i rest h
+  have hp : i.pos = spanPos ts0 rest := by
+    unfold item at h
+    simp only [Option.bind_eq_bind, Option.pure_def] at h
+    crunch_pos
+  obtain ⟨q, rfl, hq⟩ := item_sound ts0 i rest h
+  refine ⟨q, rfl, by rw [hp, spanPos_eq_tokSpan], ?_⟩
+  rintro rfl
+  simp [printItem] at hq
+
+/-- a flags item was read from exactly `pre` (doc comments, name, optional `= modifier`, `;`) -/
+def FlagItemSpan (i : FlagItem) (pre : List Token) : Prop := i.pos = tokSpan pre ∧ pre ≠ []
+
+theorem flagItem_span : ∀ ts i rest, flagItem ts = some (i, rest) → ∃ pre, ts = pre ++ rest ∧ FlagItemSpan i pre := by
+  intro ts0 i rest h
+  have hp : i.pos = spanPos ts0 rest := by
+    unfold flagItem at h
+    simp only [Option.bind_eq_bind, Option.pure_def] at h
+    crunch_pos
+  obtain ⟨q, rfl, hq⟩ := flagItem_sound ts0 i rest h
+  refine ⟨q, rfl, by rw [hp, spanPos_eq_tokSpan], ?_⟩
+  rintro rfl
+  simp [printFlagItem] at hq
+
+theorem errParamsL_span (fuel n : Nat) : SpanL PsSpan (errParamsL fuel n) := by
+  induction n with
+  | zero => exact SpanL.zero _ _ (fun _ => rfl)
+  | succ n ih =>
+    intro ts ps rest hm
+    simp only [errParamsL] at hm
+    rcases List.mem_append.mp hm with hm | hm
+    · split at hm
+      · obtain ⟨⟨p, ts1⟩, hpm, hm2⟩ := List.mem_flatMap.mp hm
+        clear hm
+        obtain ⟨pp, rfl, _, _, hpp⟩ := paramL_span fuel _ _ _ hpm
+        dsimp only at hm2
+        obtain ⟨⟨ps', r⟩, hps, he⟩ := List.mem_map.mp hm2
+        simp only [Prod.mk.injEq] at he
+        obtain ⟨rfl, rfl⟩ := he
+        obtain ⟨pr, rfl, hcr⟩ := ih _ _ _ hps
+        exact ⟨pp ++ pr, by simp, PsSpan.cons' hpp hcr⟩
+      · simp at hm
+    · simp only [List.mem_singleton, Prod.mk.injEq] at hm
+      obtain ⟨rfl, rfl⟩ := hm
+      exact ⟨[], by simp, PsSpan.nil _⟩
+
+/-- an error code was read from exactly `pre`; its parameters lie inside, in order -/
+def ErrCodeSpan (c : ErrCode) (pre : List Token) : Prop := c.pos = tokSpan pre ∧ pre ≠ [] ∧ PsSpan c.params pre
+
+theorem errCode_span (fuel : Nat) : ∀ ts c rest, errCode fuel ts = some (c, rest) → ∃ pre, ts = pre ++ rest ∧ ErrCodeSpan c pre := by
+  intro ts0 c r h
+  have hp : c.pos = spanPos ts0 r := by
+    unfold errCode at h
+    simp only [Option.bind_eq_bind, Option.pure_def] at h
+    crunch_pos
+    all_goals (obtain ⟨_, _, _, h⟩ := firstThat_inv h; try dsimp only at h)
+    all_goals crunch_pos
+  obtain ⟨cs, h1, _⟩ := comments_sound ts0
+  unfold errCode at h
+  generalize comments ts0 = x at h h1
+  obtain ⟨cm, ts⟩ := x
+  simp only [Option.bind_eq_bind, Option.pure_def] at h h1
+  cases hi : ident ts with
+  | none => simp [hi] at h
+  | some y =>
+    obtain ⟨n, ts1⟩ := y
+    obtain ⟨nt, rfl, _⟩ := ident_inv hi
+    simp only [hi, Option.bind_some] at h
+    split at h
+    · next hlp =>
+      obtain ⟨lp, hlpe, _⟩ := peekKw_inv hlp
+      obtain ⟨ps, r', hmem, hnext⟩ := firstThat_inv h
+      cases hk : kw? ")" r' with
+      | none => simp [hk] at hnext
+      | some ts3 =>
+        obtain ⟨rp, rfl, _⟩ := kw?_inv hk
+        simp only [hk, Option.bind_some] at hnext
+        cases hs : kw? ";" ts3 with
+        | none => simp [hs] at hnext
+        | some ts4 =>
+          obtain ⟨semi, rfl, _⟩ := kw?_inv hs
+          simp only [hs, Option.bind_some, Option.some.injEq, Prod.mk.injEq] at hnext
+          obtain ⟨rfl, rfl⟩ := hnext
+          obtain ⟨pre, hpre, hc⟩ := errParamsL_span fuel fuel _ _ _ hmem
+          have hts : ts0 = (cs ++ nt :: lp :: (pre ++ [rp, semi])) ++ ts4 := by rw [h1, hlpe, hpre]; simp
+          refine ⟨cs ++ nt :: lp :: (pre ++ [rp, semi]), hts, ?_, by simp, ?_⟩
+          · rw [hp, hts, spanPos_eq_tokSpan]
+          · have := (hc.right [rp, semi]).left (cs ++ [nt, lp])
+            simpa using this
+    · cases hs : kw? ";" ts1 with
+      | none => simp [hs] at h
+      | some ts4 =>
+        obtain ⟨semi, rfl, _⟩ := kw?_inv hs
+        simp only [hs, Option.bind_some, Option.some.injEq, Prod.mk.injEq] at h
+        obtain ⟨rfl, rfl⟩ := h
+        have hts : ts0 = (cs ++ [nt, semi]) ++ ts4 := by rw [h1]; simp
+        refine ⟨cs ++ [nt, semi], hts, ?_, by simp, PsSpan.nil _⟩
+        rw [hp, hts, spanPos_eq_tokSpan]
+
+/-- kind-specific nesting of a declaration inside its own tokens `pre` (doc comments excluded): the items / fields /
+    members / error codes tile the body between `{` and `}`; a named function's signature sits right before the `;` -/
 def DeclInner (d : Decl) (pre : List Token) : Prop :=
   match d with
+  | .enum _ _ is _ => ∃ hd body rb, pre = hd ++ body ++ [rb] ∧ hd ≠ [] ∧ Tiles ItemSpan is body
+  | .flags _ _ is _ => ∃ hd body rb, pre = hd ++ body ++ [rb] ∧ hd ≠ [] ∧ Tiles FlagItemSpan is body
   | .record _ _ _ _ fs _ _ => ∃ hd body tl, pre = hd ++ body ++ tl ∧ hd ≠ [] ∧ tl ≠ [] ∧ Tiles FieldSpan fs body
   | .interface _ _ _ _ _ methods props _ => ∃ hd body rb ms, pre = hd ++ body ++ [rb] ∧ hd ≠ [] ∧
       Tiles MemberSpan ms body ∧ methods = ms.filterMap Member.method? ∧ props = ms.filterMap Member.prop?
-  | _ => True
+  | .error _ _ codes _ => ∃ hd body rb, pre = hd ++ body ++ [rb] ∧ hd ≠ [] ∧ Tiles ErrCodeSpan codes body
+  | .function _ _ f _ => ∃ hd sg semi, pre = hd ++ sg ++ [semi] ∧ hd ≠ [] ∧ FSpan f sg
 
-/-- **declarations, with what is inside**: position = span of doc comments + consumed tokens; fields / members tile
-    the body -/
+theorem DeclInner.ne_nil {d : Decl} {pre : List Token} (h : DeclInner d pre) : pre ≠ [] := by
+  cases d <;> simp only [DeclInner] at h
+  · obtain ⟨hd, body, rb, rfl, _, _⟩ := h; simp
+  · obtain ⟨hd, body, rb, rfl, _, _⟩ := h; simp
+  · obtain ⟨hd, body, tl, rfl, _, h3, _⟩ := h; simp [h3]
+  · obtain ⟨hd, body, rb, ms, rfl, _, _⟩ := h; simp
+  · obtain ⟨hd, sg, semi, rfl, _, _⟩ := h; simp
+  · obtain ⟨hd, body, rb, rfl, _, _⟩ := h; simp
+
+/-- **declarations, with what is inside** (all six kinds): the position is the span of the doc comments and exactly the
+    consumed (non-empty) tokens; items / fields / members / error codes tile the body, each with its exact span -/
 theorem typeDecl_inner (fuel : Nat) (c : List String) (cs ts : List Token) (d : Decl) (rest : List Token)
     (h : typeDecl fuel c (cs ++ ts) ts = some (d, rest)) :
-    ∃ pre, ts = pre ++ rest ∧ d.pos = tokSpan (cs ++ pre) ∧ DeclInner d pre := by
+    ∃ pre, ts = pre ++ rest ∧ pre ≠ [] ∧ d.pos = tokSpan (cs ++ pre) ∧ DeclInner d pre := by
+  have key : ∀ pre, ts = pre ++ rest → DeclInner d pre →
+      ∃ pre, ts = pre ++ rest ∧ pre ≠ [] ∧ d.pos = tokSpan (cs ++ pre) ∧ DeclInner d pre := by
+    intro pre h1 h2
+    obtain ⟨pre', h1', hpos⟩ := typeDecl_span fuel c cs ts d rest h
+    have : pre' = pre := List.append_cancel_right (h1'.symm.trans h1)
+    subst this
+    exact ⟨pre', h1, h2.ne_nil, hpos, h2⟩
   cases d with
   | record n c' fl flp fs dv p =>
-    obtain ⟨hd, body, tl, h1, h2, h3, h4, h5⟩ := record_span fuel c cs ts n c' fl flp fs dv p rest h
-    exact ⟨hd ++ body ++ tl, h1, by rw [h4]; simp [Decl.pos], hd, body, tl, rfl, h2, h3, h5⟩
+    obtain ⟨hd, body, tl, h1, h2, h3, _, h5⟩ := record_span fuel c cs ts n c' fl flp fs dv p rest h
+    exact key (hd ++ body ++ tl) h1 ⟨hd, body, tl, rfl, h2, h3, h5⟩
   | interface n c' mn fl flp methods props p =>
-    obtain ⟨hd, body, rb, ms, h1, h2, h3, h4, h5, h6⟩ := interface_span fuel c cs ts n c' mn fl flp methods props p rest h
-    exact ⟨hd ++ body ++ [rb], h1, by rw [h3]; simp [Decl.pos], hd, body, rb, ms, rfl, h2, h4, h5, h6⟩
+    obtain ⟨hd, body, rb, ms, h1, h2, _, h4, h5, h6⟩ := interface_span fuel c cs ts n c' mn fl flp methods props p rest h
+    exact key (hd ++ body ++ [rb]) h1 ⟨hd, body, rb, ms, rfl, h2, h4, h5, h6⟩
   | enum n c' is p =>
-    obtain ⟨pre, h1, h2⟩ := typeDecl_span fuel c cs ts _ rest h
-    exact ⟨pre, h1, h2, trivial⟩
+    obtain ⟨_, nt, eq, k, lb, body0, rb, rfl, _, _, _, _, _, hm⟩ := typeDecl_enum_inv fuel c _ _ n c' is p rest h
+    obtain ⟨body, rfl, ht⟩ := many_tiles ItemSpan fuel _ item item_span fuel _ _ _ hm
+    exact key ([nt, eq, k, lb] ++ body ++ [rb]) (by simp) ⟨[nt, eq, k, lb], body, rb, rfl, by simp, ht⟩
   | flags n c' is p =>
-    obtain ⟨pre, h1, h2⟩ := typeDecl_span fuel c cs ts _ rest h
-    exact ⟨pre, h1, h2, trivial⟩
+    obtain ⟨_, nt, eq, k, lb, body0, rb, rfl, _, _, _, _, _, hm⟩ := typeDecl_flags_inv fuel c _ _ n c' is p rest h
+    obtain ⟨body, rfl, ht⟩ := many_tiles FlagItemSpan fuel _ flagItem flagItem_span fuel _ _ _ hm
+    exact key ([nt, eq, k, lb] ++ body ++ [rb]) (by simp) ⟨[nt, eq, k, lb], body, rb, rfl, by simp, ht⟩
   | function n c' f p =>
-    obtain ⟨pre, h1, h2⟩ := typeDecl_span fuel c cs ts _ rest h
-    exact ⟨pre, h1, h2, trivial⟩
+    obtain ⟨_, nt, eq, ts2, semi, rfl, _, _, hmem, _, _⟩ := typeDecl_function_inv fuel c _ _ n c' f p rest h
+    obtain ⟨sg, rfl, _, hsg⟩ := functionL_span fuel _ _ _ hmem
+    exact key ([nt, eq] ++ sg ++ [semi]) (by simp) ⟨[nt, eq], sg, semi, rfl, by simp, hsg⟩
   | error n c' codes p =>
-    obtain ⟨pre, h1, h2⟩ := typeDecl_span fuel c cs ts _ rest h
-    exact ⟨pre, h1, h2, trivial⟩
+    obtain ⟨_, nt, eq, k, lb, body0, rb, rfl, _, _, _, _, _, hm⟩ := typeDecl_error_inv fuel c _ _ n c' codes p rest h
+    obtain ⟨body, rfl, ht⟩ := many_tiles ErrCodeSpan fuel _ (errCode fuel) (errCode_span fuel) fuel _ _ _ hm
+    exact key ([nt, eq, k, lb] ++ body ++ [rb]) (by simp) ⟨[nt, eq, k, lb], body, rb, rfl, by simp, ht⟩
 
 /-- `ContentSpan c seg`: a declaration or namespace was read from exactly `seg` (doc comments included); the children of
     a namespace tile its body between `{` and `}` -/
@@ -922,7 +1049,7 @@ theorem content_span (fuel : Nat) : ∀ ts a rest, content fuel ts = some (a, re
         obtain ⟨rfl, rfl⟩ := h
         have ht' : typeDecl g (comments ts0).1 (cs ++ (comments ts0).2) (comments ts0).2 = some (d, r) := by
           rw [← h1]; exact ht
-        obtain ⟨pre, hpre, hpos, hin⟩ := typeDecl_inner g _ cs _ d r ht'
+        obtain ⟨pre, hpre, _, hpos, hin⟩ := typeDecl_inner g _ cs _ d r ht'
         exact ⟨cs ++ pre, by rw [List.append_assoc, ← hpre]; exact h1, ContentSpan.decl d cs pre hpos hin⟩
 
 
